@@ -111,6 +111,11 @@ Fixpoint hm_insert (c : C) (ms : list M) (m : list (C * list M)) : list (C * lis
   end.
 Definition hm_of_members (members : list (C * list M)) : list (C * list M) :=
   fold_left (fun m e => hm_insert (fst e) (snd e) m) members [].
+(* the member of the JSON object that counts for a name: the last one written *)
+Definition last_member (c : C) (members : list (C * list M)) : option (list M) :=
+  fold_left (fun acc e => if ceqb c (fst e) then Some (snd e) else acc) members None.
+Fixpoint hm_get (c : C) (m : list (C * list M)) : option (list M) :=
+  match m with [] => None | (c', ms) :: t => if ceqb c c' then Some ms else hm_get c t end.
 End CertPipeline.
 
 Definition cert_pipeline (perm : list (bytes * list bytes) -> list (bytes * list bytes))
